@@ -33,7 +33,14 @@ def run_lines(ctx, n, drv=None):
     cases = [gens.lines_case(ctx.seed, 'lines', i) for i in range(n)]
     cases += [gens.text_case(ctx.seed, 'lines-text', i)[1] for i in range(n // 4)]
     outs = drv.run([impl.req_lines(s) for s in cases])
+    douts = drv.run([impl.req_lines_drop(s) for s in cases])
     mm = []
+    # keepends=False against the extracted split_plain (LinesDrop.v: re.split on \n | \r\n | \r)
+    for i, (s, o) in enumerate(zip(cases, douts)):
+        e = impl.ans_lines_drop(s)
+        ctx.count('linesdrop')
+        if e != o:
+            mm.append(Mismatch('linesdrop', i, dict(text=s, cps=[ord(c) for c in s], path='keepends=False'), e, o))
     for i, (s, o) in enumerate(zip(cases, outs)):
         e = impl.ans_lines(s)
         ctx.count('lines')
